@@ -102,6 +102,9 @@ Definition spec (k:dcase) (obs:tape) : option (N * tape) :=
     | Some (r, _) => match request_ok k r with Some c => Some (c, []) | None => None end
     | None => Some (199, [])
     end in
+  (* "URLs that are not ws/wss or that carry userinfo are refused before any network activity" *)
+  let bad_url := c_user k || match c_scheme k with SOther => true | _ => false end in
+  if bad_url && negb (match obs with 0 :: _ => true | _ => false end) then Some (119, []) else
   match obs with
   | 4 :: _ :: rest =>
       if negb (reply_proves_acceptance k) then Some (120, [])                      (* connected without proof *)
